@@ -130,7 +130,7 @@ theorem cinv_shutdownRun {s : St} (h : CInv s) : CInv (shutdownRun s).1 := by
       simp only [shutdownTail, closeWriter_fst'']
       split
       · exact hc.keep ⟨rfl, rfl, rfl, rfl, rfl, id⟩
-      · exact hc.keep ⟨rfl, rfl, rfl, rfl, rfl, id⟩
+      · rw [finishClose_fst]; exact hc.keep ⟨rfl, rfl, rfl, rfl, rfl, id⟩
     · exact h
   · exact h
 
@@ -420,14 +420,22 @@ theorem cinv_fire {s : St} (hi : Inv s) (h : CInv s) (k : Timer) : CInv (fire s 
       | cwcloseTO =>
         simp only []
         split
-        · exact h.keep ⟨rfl, rfl, rfl, rfl, rfl, id⟩
+        · rw [finishClose_fst]; exact h.keep ⟨rfl, rfl, rfl, rfl, rfl, id⟩
         · exact h
 
+theorem kq_reopenEv (s : St) : KeepQ s (reopenEv s).1 := by
+  unfold reopenEv; split <;> exact ⟨rfl, rfl, rfl, rfl, rfl, id⟩
+
+theorem kq_versionsGo (s : St) : KeepQ s (versionsGo s).1 := by
+  unfold versionsGo; split <;> exact ⟨rfl, rfl, rfl, rfl, rfl, id⟩
+
 theorem cinv_step {s : St} (hi : Inv s) (h : CInv s) (e : Ev) : CInv (step s e).1 := by
-  unfold step
+  unfold step stepDone stepLive
   split
-  · split <;> first | exact h | exact h.keep ⟨rfl, rfl, rfl, rfl, rfl, id⟩
+  · split <;> first | exact h | exact h.keep ⟨rfl, rfl, rfl, rfl, rfl, id⟩ | exact h.keep (kq_reopenEv s)
   · cases e with
+    | reopen => exact h
+    | versionsGo => exact h.keep (kq_versionsGo s)
     | connect => simp only []; split <;> first | exact h | exact cinv_doOpen hi.cons_le h _
     | feed f => exact cinv_feed h f
     | readFault => simp only []; split <;> first | exact h | exact h.keep (kq_prodFault s)
@@ -630,6 +638,21 @@ theorem nDel_handle (s : St) (f : Feed) (a k : Nat) :
           simp only [Bool.and_eq_true, beq_iff_eq, not_and] at h
           simp only [beq_eq_false_iff_ne, ne_eq, Option.some.injEq, Prod.mk.injEq, not_and]; exact h
         simp [h, this]
+  | versions vs =>
+    have c := (he s.devices ecomaxAddr).counts a k
+    simp only [handle, nPut, nDel, List.countP_append] at c ⊢
+    rw [c.1, c.2]
+    simp only [List.countP_cons, List.countP_nil, isPut, isDel, isFor, Feed.addr?]
+    constructor
+    · simp
+    · by_cases h : (ecomaxAddr == a && kindSensors == k) = true
+      · have : (some (ecomaxAddr, kindSensors) == some (a, k)) = true := by
+          simp only [Bool.and_eq_true, beq_iff_eq] at h; simp [h.1, h.2]
+        simp [h, this]
+      · have : (some (ecomaxAddr, kindSensors) == some (a, k)) = false := by
+          simp only [Bool.and_eq_true, beq_iff_eq, not_and] at h
+          simp only [beq_eq_false_iff_ne, ne_eq, Option.some.injEq, Prod.mk.injEq, not_and]; exact h
+        simp [h, this]
 
 theorem finishFrame_outs (s : St) (f : Feed) (ad k' : Nat) (hf : f.addr? = some (ad, k')) (a k : Nat) :
     nPut a k (finishFrame s f).2 = 0 ∧ nDel a k (finishFrame s f).2 = (if isFor a k f then 1 else 0) := by
@@ -790,17 +813,24 @@ theorem frn_fire (s : St) (k : Timer) : FrNeutral s (fire s k) := by
       | cwcloseTO =>
         simp only []
         split
-        · exact ⟨⟨rfl, rfl⟩, nofr_cons rfl nofr_nil⟩
+        · exact ⟨⟨by rw [finishClose_fst], by rw [finishClose_fst]⟩, nofr_cons rfl nofr_nil⟩
         · exact frn_refl s
+
+theorem frn_reopenEv (s : St) : FrNeutral s (reopenEv s) := by
+  unfold reopenEv; split <;> exact ⟨⟨rfl, rfl⟩, nofr_nil⟩
 
 /-- **frames are neither lost nor duplicated** (one step): for every address and frame kind,
 frames put on the read queue + frames pending before = frames delivered to that device +
 frames pending after.  Only `shutdown()` (which cancels consumers holding frames) is excluded. -/
 theorem step_frames {s : St} (h : CInv s) (e : Ev) (hne : e ≠ .shutdownRun) (a k : Nat) : FrBal s (step s e) a k := by
-  unfold step
+  unfold step stepDone stepLive
   split
-  · split <;> exact (frn_refl s).bal a k <;> exact FrNeutral.bal ⟨⟨rfl, rfl⟩, nofr_nil⟩ a k
+  · split <;> first | exact (frn_refl s).bal a k | exact FrNeutral.bal ⟨⟨rfl, rfl⟩, nofr_nil⟩ a k | exact (frn_reopenEv s).bal a k
   · cases e with
+    | reopen => exact (frn_refl s).bal a k
+    | versionsGo =>
+      refine FrNeutral.bal ⟨(kq_versionsGo s).rh, ?_⟩ a k
+      unfold versionsGo; split <;> exact nofr_nil
     | connect => simp only []; split <;> first | exact (frn_refl s).bal a k | exact (frn_doOpen s _).bal a k
     | feed f =>
       simp only [feed]
@@ -889,6 +919,11 @@ theorem nd_handle (s : St) (f : Feed) (h : (addrs s).Nodup) : (addrs (handle s f
     rw [map_addr_updDev]
     · exact nd_ensureDev _ _ h
     · intro d; rfl
+  | versions vs =>
+    show ((updDev (ensureDev s.devices ecomaxAddr).1 ecomaxAddr _).map Dev.addr).Nodup
+    rw [map_addr_updDev]
+    · exact nd_ensureDev _ _ h
+    · intro d; rfl
   | sensors m t =>
     show ((updDev (ensureDev s.devices ecomaxAddr).1 ecomaxAddr _).map Dev.addr).Nodup
     rw [map_addr_updDev]
@@ -952,10 +987,12 @@ theorem nd_finishAll (l : List Feed) (s : St) (h : (addrs s).Nodup) : (addrs (fi
 theorem nd_step (s : St) (e : Ev) (h : (addrs s).Nodup) : (addrs (step s e).1).Nodup := by
   have same : ∀ s' : St, SameAddrs s s' → (addrs s').Nodup := by
     intro s' hs; unfold SameAddrs at hs; rw [hs]; exact h
-  unfold step
+  unfold step stepDone stepLive
   split
-  · split <;> exact h
+  · split <;> first | exact h | exact same _ (sa_reopenEv s)
   · cases e with
+    | reopen => exact h
+    | versionsGo => exact same _ (sa_versionsGo s)
     | connect => simp only []; split <;> first | exact h | exact same _ (sa_doOpen s _)
     | feed f =>
       simp only [feed]
@@ -1055,10 +1092,12 @@ def lmN (s : St) : Nat := if s.lostMid then 1 else 0
 theorem lm_step (s : St) (e : Ev) (h : e ≠ .lostRun ∧ e ≠ .lostRun2 ∧ e ≠ .shutdownRun) :
     (step s e).1.lostMid = s.lostMid := by
   obtain ⟨h1, h2, h3⟩ := h
-  unfold step
+  unfold step stepDone stepLive
   split
-  · split <;> rfl
+  · split <;> first | rfl | exact (same_reopenEv s).lostMid
   · cases e with
+    | reopen => rfl
+    | versionsGo => exact (samew_versionsGo s).lostMid
     | connect => simp only []; split <;> first | rfl | exact (samep_doOpen s _).lostMid
     | feed f => exact (samew_feed s f).lostMid
     | readFault => simp only []; split <;> rfl
@@ -1088,7 +1127,7 @@ theorem lm_step (s : St) (e : Ev) (h : e ≠ .lostRun ∧ e ≠ .lostRun2 ∧ e 
           | setup a => exact (samew_fireSetup s a).lostMid
           | cwcloseTO =>
             simp only []
-            split <;> rfl
+            split <;> first | rfl | (rw [finishClose_fst])
     | prodStart => simp only []; split <;> first | rfl | exact (samew_prodIO s).lostMid
     | lostRun => exact absurd rfl h1
     | lostRun2 => exact absurd rfl h2
@@ -1129,7 +1168,7 @@ theorem step_announce {s : St} (hi : Inv s) (hw : WInv s) (hn : (addrs s).Nodup)
   have hnd : isDone s.closing = false := by rw [hcl]; rfl
   by_cases h1 : e = .lostRun
   · subst h1
-    have e1 : step s .lostRun = lostRun s := by simp [step, hnd]
+    have e1 : step s .lostRun = lostRun s := by simp [step, stepDone, stepLive, hnd]
     rw [e1]
     simp only [lostRun]
     split
@@ -1163,7 +1202,7 @@ theorem step_announce {s : St} (hi : Inv s) (hw : WInv s) (hn : (addrs s).Nodup)
           omega
   · by_cases h2 : e = .lostRun2
     · subst h2
-      have e1 : step s .lostRun2 = lostRun2 s := by simp [step, hnd]
+      have e1 : step s .lostRun2 = lostRun2 s := by simp [step, stepDone, stepLive, hnd]
       rw [e1]
       simp only [lostRun2]
       split
@@ -1181,14 +1220,14 @@ theorem step_announce {s : St} (hi : Inv s) (hw : WInv s) (hn : (addrs s).Nodup)
         omega
     · by_cases h3 : e = .shutdownRun
       · subst h3
-        have : step s .shutdownRun = (s, []) := by simp [step, hnd, shutdownRun, hcl]
+        have : step s .shutdownRun = (s, []) := by simp [step, stepDone, stepLive, hnd, shutdownRun, hcl]
         rw [this]; simp [nAnnF]
       · have hlm := lm_step s e ⟨h1, h2, h3⟩
         have hz : nAnnFalse (step s e).2 = 0 := by
           by_cases h4 : e = .connect
           · subst h4
             have e1 : (step s .connect).2 = [] ∨ (step s .connect).2 = (doOpen s .user).2 := by
-              simp only [step, hnd, Bool.false_eq_true, ↓reduceIte]; split
+              simp only [step, stepDone, stepLive, hnd, Bool.false_eq_true, ↓reduceIte]; split
               · left; rfl
               · right; rfl
             rcases e1 with e1 | e1
@@ -1198,7 +1237,7 @@ theorem step_announce {s : St} (hi : Inv s) (hw : WInv s) (hn : (addrs s).Nodup)
             · subst h5
               have e1 : (step s (.tick .wcloseTO)).2 = [] ∨
                   (step s (.tick .wcloseTO)).2 = (reconnectInvoke { s with recon := .idle, writer := none }).2 := by
-                simp only [step, hnd, Bool.false_eq_true, ↓reduceIte, fire]
+                simp only [step, stepDone, stepLive, hnd, Bool.false_eq_true, ↓reduceIte, fire]
                 split
                 · left; rfl
                 · split
@@ -1211,7 +1250,7 @@ theorem step_announce {s : St} (hi : Inv s) (hw : WInv s) (hn : (addrs s).Nodup)
               · subst h6
                 have e1 : (step s (.tick .backoffEnd)).2 = [] ∨
                     (step s (.tick .backoffEnd)).2 = (doOpen { s with recon := .idle } .conn).2 := by
-                  simp only [step, hnd, Bool.false_eq_true, ↓reduceIte, fire]
+                  simp only [step, stepDone, stepLive, hnd, Bool.false_eq_true, ↓reduceIte, fire]
                   split
                   · left; rfl
                   · split
@@ -1275,14 +1314,16 @@ theorem lostFinish_invoke (s : St) (tid : Nat) (hw : s.writer = some tid) (hrc :
     rw [this]
 
 /-- the reconnect state is touched only by connect(), the loss handling, its timers and close() -/
-theorem recon_step (s : St) (e : Ev)
+theorem recon_step (s : St) (e : Ev) (hcl : s.closing = .no)
     (h : e ≠ .connect ∧ e ≠ .lostRun ∧ e ≠ .lostRun2 ∧ e ≠ .shutdownRun ∧ e ≠ .close ∧ e ≠ .tick .wcloseTO ∧
          e ≠ .tick .backoffEnd ∧ e ≠ .tick .openTO) : (step s e).1.recon = s.recon := by
   obtain ⟨h1, h2, h3, h4, h5, h6, h7, h8⟩ := h
-  unfold step
+  unfold step stepDone stepLive
   split
-  · split <;> rfl
+  · split <;> first | rfl | exact (same_reopenEv s).recon
   · cases e with
+    | reopen => rfl
+    | versionsGo => exact (same_versionsGo s).recon
     | connect => exact absurd rfl h1
     | feed f =>
       simp only [feed]
@@ -1312,7 +1353,7 @@ theorem recon_step (s : St) (e : Ev)
           | openTO => exact absurd rfl h8
           | backoffEnd => exact absurd rfl h7
           | setup a => exact (same_fireSetup s a).recon
-          | cwcloseTO => simp only []; split <;> rfl
+          | cwcloseTO => simp only []; split <;> first | rfl | (rename_i hx; rw [hcl] at hx; cases hx)
     | prodStart =>
       simp only []
       split
@@ -1336,7 +1377,7 @@ theorem step_invoke {s : St} (hi : Inv s) (hw : WInv s) (hcl : s.closing = .no) 
     intro hc; simp [pendW, hi.conn_recon hc]
   by_cases h1 : e = .lostRun
   · subst h1
-    have e1 : step s .lostRun = lostRun s := by simp [step, hnd]
+    have e1 : step s .lostRun = lostRun s := by simp [step, stepDone, stepLive, hnd]
     rw [e1]
     simp only [isLossStep, ↓reduceIte, lostRun]
     split
@@ -1365,7 +1406,7 @@ theorem step_invoke {s : St} (hi : Inv s) (hw : WInv s) (hcl : s.closing = .no) 
           rw [b1, b3]
   · by_cases h2 : e = .lostRun2
     · subst h2
-      have e1 : step s .lostRun2 = lostRun2 s := by simp [step, hnd]
+      have e1 : step s .lostRun2 = lostRun2 s := by simp [step, stepDone, stepLive, hnd]
       rw [e1]
       simp only [isLossStep, ↓reduceIte, lostRun2]
       split
@@ -1383,7 +1424,7 @@ theorem step_invoke {s : St} (hi : Inv s) (hw : WInv s) (hcl : s.closing = .no) 
         simp only [isLossStep, ↓reduceIte]
         have e1 : step s (.tick .wcloseTO) = (s, []) ∨ (∃ dl, s.recon = .wclosing dl ∧
             step s (.tick .wcloseTO) = reconnectInvoke { s with recon := .idle, writer := none }) := by
-          simp only [step, hnd, Bool.false_eq_true, ↓reduceIte, fire, deadline?]
+          simp only [step, stepDone, stepLive, hnd, Bool.false_eq_true, ↓reduceIte, fire, deadline?]
           split
           · left; rfl
           · rename_i dl hdl
@@ -1412,7 +1453,7 @@ theorem step_invoke {s : St} (hi : Inv s) (hw : WInv s) (hcl : s.closing = .no) 
         by_cases h4 : e = .connect
         · subst h4
           have e1 : step s .connect = (s, []) ∨ (s.recon = .idle ∧ step s .connect = doOpen s .user) := by
-            simp only [step, hnd, Bool.false_eq_true, ↓reduceIte]
+            simp only [step, stepDone, stepLive, hnd, Bool.false_eq_true, ↓reduceIte]
             split
             · left; rfl
             · rename_i hg
@@ -1425,7 +1466,7 @@ theorem step_invoke {s : St} (hi : Inv s) (hw : WInv s) (hcl : s.closing = .no) 
           · subst h5
             have e1 : step s (.tick .backoffEnd) = (s, []) ∨ (pendW s = 0 ∧
                 step s (.tick .backoffEnd) = doOpen { s with recon := .idle } .conn) := by
-              simp only [step, hnd, Bool.false_eq_true, ↓reduceIte, fire, deadline?]
+              simp only [step, stepDone, stepLive, hnd, Bool.false_eq_true, ↓reduceIte, fire, deadline?]
               split
               · left; rfl
               · rename_i dl hdl
@@ -1444,7 +1485,7 @@ theorem step_invoke {s : St} (hi : Inv s) (hw : WInv s) (hcl : s.closing = .no) 
             · subst h6
               have e1 : step s (.tick .openTO) = (s, []) ∨ (∃ o, pendW s = 0 ∧
                   step s (.tick .openTO) = openFailed { s with recon := .idle } o) := by
-                simp only [step, hnd, Bool.false_eq_true, ↓reduceIte, fire]
+                simp only [step, stepDone, stepLive, hnd, Bool.false_eq_true, ↓reduceIte, fire]
                 split
                 · left; rfl
                 · split
@@ -1460,9 +1501,9 @@ theorem step_invoke {s : St} (hi : Inv s) (hw : WInv s) (hcl : s.closing = .no) 
                 split <;> simp [nWclose, pendW, isWclose]
             · by_cases h7 : e = .shutdownRun
               · subst h7
-                have : step s .shutdownRun = (s, []) := by simp [step, hnd, shutdownRun, hcl]
+                have : step s .shutdownRun = (s, []) := by simp [step, stepDone, stepLive, hnd, shutdownRun, hcl]
                 rw [this]; simp [nWclose]
-              · have hr := recon_step s e ⟨h4, h1, h2, h7, hne, h3, h5, h6⟩
+              · have hr := recon_step s e hcl ⟨h4, h1, h2, h7, hne, h3, h5, h6⟩
                 have hc := calm_step s e ⟨h4, h1, h2, h7, h3, h5⟩
                 rw [hc.1]
                 simp only [pendW, hr, Nat.zero_add]
